@@ -438,9 +438,36 @@ class SObj:
         self.fields = dict(fields or {})
         self.oid = fresh_id()
         self.tag = tag
+        # a contract that hands over an object with an explicit field dict models only those attributes: the object is PARTIAL
+        # (an attribute it lacks is "not modelled", not "missing"); objects filled by the real __init__ are complete
+        self.partial = bool(fields)
 
     def __repr__(self):
         return "SObj(%s#%d)" % (getattr(self.cls, "name", self.cls), self.oid)
+
+
+class UnknownAttr:
+    """An attribute of a PARTIAL stub object that the contract does not model (e.g. a bookkeeping list a change introduced
+    in __init__).  It can be stored, passed around and have methods called on it (no tracked effect); any use of its VALUE
+    (truth, arithmetic, comparison, indexing) is outside the subset."""
+
+    def __init__(self, path):
+        self.path = path
+
+    def getattr(self, ex, st, name):
+        return UnknownAttr(self.path + "." + name)
+
+    def call(self, ex, st, args, kwargs, node):
+        return UnknownAttr(self.path + "()")
+
+    def setattr(self, ex, st, name, v):
+        return None
+
+    def clone(self, memo):
+        return self
+
+    def __repr__(self):
+        return "<unmodelled attribute %s>" % self.path
 
 
 class PlaceholderStr:
